@@ -9,7 +9,10 @@ extern "C" size_t __sanitizer_get_current_allocated_bytes(void);  // ASan alloca
 #include <stdio.h>
 #include <string.h>
 #include <algorithm>
+#include <iomanip>
+#include <locale>
 #include <new>
+#include <sstream>
 #include <string>
 #include <utility>
 #include <vector>
@@ -91,6 +94,47 @@ struct Ptr {   // a caller's array: null, or an exact-size heap copy
  private:
   Ptr(const Ptr&);
 };
+
+// operator<< on streams that carry format state (the table of widths / fills is mirrored in driver.ml).
+// The text must be the ToString() text as ONE field and the stream must come back with width 0 and
+// everything else as it was.
+struct GroupEveryDigit : std::numpunct<char> {
+  std::string do_grouping() const { return "\1"; }
+  char do_thousands_sep() const { return '.'; }
+};
+static string stream_probe(const DmxBuffer &b, int c) {
+  std::ostringstream os;
+  const std::streamsize L = static_cast<std::streamsize>(b.ToString().size());
+  switch (c) {
+    case 1: os << std::hex; break;
+    case 2: os << std::oct << std::showbase; break;
+    case 3: os << std::hex << std::showbase << std::uppercase; break;
+    case 4: os << std::showpos; break;
+    case 5: os << std::dec << std::right << std::setw(L + 3) << std::setfill('*'); break;
+    case 6: os << std::left << std::setw(L + 2) << std::setfill('.'); break;
+    case 7: os << std::internal << std::hex << std::showpos << std::setw(L + 1) << std::setfill('0'); break;
+    case 8: os << std::showpos << std::showbase << std::oct << std::setw(L); break;
+    case 9: os.imbue(std::locale(std::locale::classic(), new GroupEveryDigit)); break;
+    case 10: os << std::hex << std::left << std::setw(1) << std::setfill('#'); break;
+    case 11: os << std::scientific << std::showpoint << std::boolalpha << std::setprecision(2); break;
+    default: break;
+  }
+  const std::ios_base::fmtflags flags = os.flags();
+  const char fill = os.fill();
+  const std::streamsize prec = os.precision();
+  const std::locale loc = os.getloc();
+  std::ostream &ret = (os << b);
+  const bool same = os.flags() == flags && os.fill() == fill && os.precision() == prec && os.getloc() == loc &&
+                    os.good() && &ret == &os;
+  return "S" + vh::str(c) + "=" + fnv(os.str()) + ":w" + vh::str(os.width()) + ":" + (same ? "1" : "0");
+}
+static string stream_probes(Pool *pool, int i, int k) {
+  if (!pool->live(i)) return "";
+  string out = "/";
+  const int d[3] = {0, 4, 8};
+  for (int n = 0; n < 3; n++) out += (n ? "," : "") + stream_probe(*pool->at(i), (k + i + d[n]) % 12);
+  return out;
+}
 
 static string probes(Pool *pool, int i) {
   if (!pool->live(i)) return vh::str(i) + "/raw";
@@ -250,9 +294,9 @@ static string handle(const string &payload_in) {
         bool ne = *pool->at(a) != *pool->at(b);
         out += (e == ne) ? "?" : (e ? "1" : "0");
       }
-    out += "|" + probes(pool, tg);
+    out += "|" + probes(pool, tg) + stream_probes(pool, tg, k);
     int other = k % NLOG;
-    if (other != tg) out += "|" + probes(pool, other);
+    if (other != tg) out += "|" + probes(pool, other) + stream_probes(pool, other, k);
     out += ";i" + vh::str(k) + "=";
     for (int s = 0; s < NLOG; s++) {
       if (s) out += ",";
